@@ -6,8 +6,7 @@ SPEC = os.path.join(VERIF, "spec")
 HARNESS = os.path.join(VERIF, "harness")
 REPO = os.environ.get("VERIF_REPO", "/repo")
 
-GOENV = dict(os.environ, GOFLAGS="-mod=mod", GOPROXY="off", GOSUMDB="off", GOTOOLCHAIN="local",
-             GOCACHE=os.environ.get("GOCACHE", "/var/tmp/verif-gocache"))
+GOENV = dict(os.environ, GOFLAGS="-mod=mod", GOPROXY="off", GOSUMDB="off", GOTOOLCHAIN="local")
 
 
 class Infra(Exception):
